@@ -87,9 +87,10 @@ def run(ctx):
             ctx.violation("sys_relay:monitor:lost-at-close:%s" % ("after-stalled-write" if stall else "no-stall"),
                           "the peer of the closing side saw the close before all messages the closing side had sent (%s): %s %s" % (legs, line, detail), rep)
         elif f["errors"] != "0":
-            # everything was delivered; the close surfaced as an error.  On a TLS leg a relay close without close_notify is reported as
-            # EPROTO/ECONNRESET after complete delivery; anywhere else it is not acceptable
-            if not tls_leg:
+            # everything was delivered; the close surfaced as an error.  On a TLS leg whose close_notify was refused by an injected
+            # EAGAIN (xcm_close does not wait) the close is reported as EPROTO after complete delivery; anywhere else - and on TLS legs
+            # without injected faults - it is not acceptable
+            if not tls_leg or w[6] == "0":
                 ctx.violation("sys_relay:monitor:close-as-error:" + legs, "complete delivery, but the close was reported as an error: %s %s" % (line, detail), rep)
             else:
                 ctx.count("relay.tls_close_as_error")
